@@ -1150,68 +1150,7 @@ struct Slot {
     watch: Watch,
 }
 
-/// CPU time (user + system, all threads) a process has used, from /proc/<pid>/stat. The
-/// backstop counts this, not wall-clock time, so that a loaded machine cannot make a healthy
-/// run look stalled; wall-clock time only bounds it from far above (a run that neither
-/// finishes nor burns CPU).
-fn cpu_seconds(pid: u32) -> Option<f64> {
-    let s = std::fs::read_to_string(format!("/proc/{pid}/stat")).ok()?;
-    let rest = &s[s.rfind(')')? + 1..];
-    let f: Vec<&str> = rest.split_whitespace().collect();
-    // after the command: state is field 0, utime field 11, stime field 12
-    let ut: f64 = f.get(11)?.parse().ok()?;
-    let st: f64 = f.get(12)?.parse().ok()?;
-    Some((ut + st) / 100.0)
-}
-
-const WALL_FACTOR: u64 = 10;
-
-/// True when no thread of the process is runnable or in uninterruptible wait: together with a
-/// CPU counter that stands still this is a blocked process (a self-deadlock), as opposed to one
-/// that is merely not being given a core.
-fn all_threads_sleeping(pid: u32) -> bool {
-    let Ok(rd) = std::fs::read_dir(format!("/proc/{pid}/task")) else { return false };
-    let mut seen = false;
-    for e in rd.flatten() {
-        let Ok(s) = std::fs::read_to_string(e.path().join("stat")) else { continue };
-        let Some(p) = s.rfind(')') else { continue };
-        match s[p + 1..].split_whitespace().next() {
-            Some("S") => seen = true,
-            _ => return false,
-        }
-    }
-    seen
-}
-
-/// Progress watch for one child on one run: stalled when it has burnt more than `limit` CPU
-/// seconds on it, or has been blocked (all threads asleep, CPU counter unchanged) for `limit`
-/// seconds, or, as an outer bound, after WALL_FACTOR x `limit` seconds of wall-clock time.
-pub(crate) struct Watch {
-    since: std::time::Instant,
-    cpu_at_start: f64,
-    cpu_last: f64,
-    cpu_last_at: std::time::Instant,
-}
-
-impl Watch {
-    pub(crate) fn new(pid: u32) -> Watch {
-        let c = cpu_seconds(pid).unwrap_or(0.0);
-        let now = std::time::Instant::now();
-        Watch { since: now, cpu_at_start: c, cpu_last: c, cpu_last_at: now }
-    }
-    pub(crate) fn stalled(&mut self, pid: u32, limit: u64) -> bool {
-        let wall = self.since.elapsed().as_secs();
-        if wall <= limit {
-            return false;
-        }
-        let Some(c) = cpu_seconds(pid) else { return true };
-        if c != self.cpu_last {
-            self.cpu_last = c;
-            self.cpu_last_at = std::time::Instant::now();
-        }
-        c - self.cpu_at_start > limit as f64 || (self.cpu_last_at.elapsed().as_secs() > limit && all_threads_sleeping(pid)) || wall > limit * WALL_FACTOR
-    }
-}
+pub(crate) use simcore::isolate::Watch;
 
 fn on_case_thread<F: FnOnce() -> i32 + Send + 'static>(f: F) -> i32 {
     std::thread::Builder::new()
